@@ -1,19 +1,26 @@
 (* C03 — the emitted program image satisfies the datapath's structural contract.
-   PARTIAL at this stage.  The full statement is C03_full_statement: the executable predicate
-   image_wf (an independent decoder of the bytes: 16-byte records, DEF preamble, contiguous
-   tiling in source order, non-empty condition blocks ending in a write of the event flag,
-   defined opcodes, writable result class, register indices inside the files, temporaries read
-   only after being written) holds of every image the compiler produces.  Proved so far, on the
-   instruction-level model: lengths, the tiling, non-empty condition blocks whose last
-   instruction writes the scope's event-flag register, per-register limits.  image_wf itself is
-   evaluated on every image portus produces in the correspondence streams.
-   Proofs: Portus.Lang.ImageFacts. *)
-From Portus Require Import Image ImageSpec ImageFacts ParserFacts TotalFacts.
+   PROVED.  The full statement is C03_full_statement: the executable predicate image_wf (an
+   independent decoder of the bytes: 16-byte records, DEF preamble initialising report/control
+   registers from immediates and no DEF elsewhere, contiguous tiling in source order, non-empty
+   condition blocks ending in a write of implicit register 0, defined opcodes, writable result
+   class, register indices inside the files, temporaries read only after being written in the
+   same block) holds of every image the compiler produces from any source text and any list of
+   compile-time overrides.  The one hypothesis is that the image has fewer than 2^32
+   instructions: the event table stores indices and counts in 32 bits (the real code casts to
+   u32 the same way), so a larger image is outside what the wire format can describe.
+   image_wf is also evaluated on every image portus produces in the correspondence streams.
+   Proofs: Portus.Lang.ImageWf (final theorem emitted_image_wf), Portus.Lang.ImageFacts. *)
+From Portus Require Import Image ImageSpec ImageFacts ParserFacts TotalFacts ImageWf.
 
 Definition C03_full_statement : Prop :=
   forall src ups bytes sc b sc',
     compile_and_serialize src ups = inl (Ok (bytes, sc)) -> compile src ups = inl (Ok (b, sc')) ->
+    N.of_nat (length (b_instrs b)) < 4294967296 ->
     image_wf (length (b_events b)) bytes = true.
+
+Theorem C03_emitted_image_well_formed : C03_full_statement.
+Proof. exact emitted_image_wf. Qed.
+Print Assumptions C03_emitted_image_well_formed.
 
 Theorem C03_image_length : forall b bytes, serialize_bin b = Ok bytes ->
   length bytes = (16 * length (b_events b) + 16 * length (b_instrs b))%nat.
